@@ -8,6 +8,7 @@ From PyLib Require Import PyVal PyBuiltins Ideal.
 From Gen Require Import M_base M_Angle M_Epoch M_Interpolation M_Coordinates M_Earth M_Sun.
 From Proofs.C08 Require Import C08_base C08_obliquity C08_sun C08_j2000.
 From Proofs.C08 Require C08_angle2 C08_frames C08_equinox C08_coarse C08_node.
+From Proofs.C08 Require C08_nut_angle C08_nut_loop C08_nut_main C08_nut_bound.
 From Gen Require Import M_Moon.
 Import ListNotations.
 Open Scope R_scope.
@@ -225,6 +226,62 @@ Definition C08_equinox_frame_full : Prop := C08_equinox.equinox_frame_full.
 Theorem C08_equinox_frame_refuted : ~ C08_equinox_frame_full.
 Proof. exact C08_equinox.equinox_frame_refuted. Qed.
 
+(* ---- nutation (C08_nut_loop.v: generic theorem about the translated double loop, any table length;
+   C08_nut_main.v: the generated loops are instances of it; C08_nut_bound.v: closed form and bounds).
+   SCT / CCT / AT are the coefficient and argument tables decoded from the regenerated model;
+   nut_term g CT T i = (a_i + b_i T) g(sum_j n_ij F_j(T) deg) / 10^4 with F = (D, M, M', F, Omega) the five
+   polynomials written in the code (polyD .. polyO), T = (JDE - 2451545)/36525. *)
+
+(* structure: nutation_longitude(epoch) = Angle(0, 0, sum_i (a_i + b_i T) sin(arg_i) / 10^4), every epoch *)
+Theorem C08_nutation_longitude_structure : forall j,
+  f_nutation_longitude Rops (VTuple [epoch j]) (VDict []) =
+    Angle___init__ Rops (VObj cAngle [VNone; VNone])
+      (VTuple [VInt 0; VInt 0; VFloat (C08_nut_main.nut_raw sin C08_nut_main.SCT (C08_nut_main.Tc j))]) (VDict []) /\
+  C08_nut_main.nut_raw sin C08_nut_main.SCT (C08_nut_main.Tc j) =
+    C08_nut_bound.bigsum (C08_nut_bound.nut_term sin C08_nut_main.SCT (C08_nut_main.Tc j)) 0 (length C08_nut_main.SCT).
+Proof.
+  intro j. split; [exact (C08_nut_main.nutation_longitude_struct j) | apply C08_nut_bound.nut_raw_sin_closed].
+Qed.
+
+Theorem C08_nutation_obliquity_structure : forall j,
+  f_nutation_obliquity Rops (VTuple [epoch j]) (VDict []) =
+    Angle___init__ Rops (VObj cAngle [VNone; VNone])
+      (VTuple [VInt 0; VInt 0; VFloat (C08_nut_main.nut_raw cos C08_nut_main.CCT (C08_nut_main.Tc j))]) (VDict []) /\
+  C08_nut_main.nut_raw cos C08_nut_main.CCT (C08_nut_main.Tc j) =
+    C08_nut_bound.bigsum (C08_nut_bound.nut_term cos C08_nut_main.CCT (C08_nut_main.Tc j)) 0 (length C08_nut_main.CCT).
+Proof.
+  intro j. split; [exact (C08_nut_main.nutation_obliquity_struct j) | apply C08_nut_bound.nut_raw_cos_closed].
+Qed.
+
+(* amplitude: the series minus its first row (-171996 - 174.2 T) sin(Omega) / 10^4, resp.
+   (92025 + 8.9 T) cos(Omega) / 10^4, Omega = the code's own node polynomial, is bounded by the sum of
+   the other rows' amplitudes read from the extracted tables: 2.25'' and 0.89'' for |T| <= 20 *)
+Theorem C08_nutation_remainders : forall t, Rabs t <= 20 ->
+  Rabs (C08_nut_main.nut_raw sin C08_nut_main.SCT t - C08_nut_bound.main_psi t (C08_nut_main.polyO t)) <= 225 / 100 /\
+  Rabs (C08_nut_main.nut_raw cos C08_nut_main.CCT t - C08_nut_bound.main_eps t (C08_nut_main.polyO t)) <= 89 / 100 /\
+  C08_nut_main.polyO t = C08_node.node_nutation t.
+Proof.
+  intros t Ht. split; [apply C08_nut_bound.nutation_longitude_remainder; exact Ht|].
+  split; [apply C08_nut_bound.nutation_obliquity_remainder; exact Ht | reflexivity].
+Qed.
+
+(* the property's clauses: nutation in longitude / obliquity is an Angle of dpsi / deps arc seconds within
+   3.5'' / 1.5'' of the 18.6-year main term built on the MOON module's mean node (C08_node.node_moon,
+   = Moon.longitude_mean_ascending_node by C08_moon_node_closed_form), for |T| <= 20 centuries *)
+Theorem C08_nutation_longitude_main_term : forall j, Rabs (C08_nut_main.Tc j) <= 20 ->
+  exists dpsi, f_nutation_longitude Rops (VTuple [epoch j]) (VDict []) = ang (dpsi / 3600) /\
+    dpsi = C08_nut_main.nut_raw sin C08_nut_main.SCT (C08_nut_main.Tc j) /\
+    Rabs (dpsi - (-171996 - 1742 / 10 * C08_nut_main.Tc j)
+                 * sin (C08_node.node_moon (C08_nut_main.Tc j) * (PI / 180)) / 10000) <= 35 / 10.
+Proof. exact C08_nut_bound.nutation_longitude_clause. Qed.
+
+Theorem C08_nutation_obliquity_main_term : forall j, Rabs (C08_nut_main.Tc j) <= 20 ->
+  exists deps, f_nutation_obliquity Rops (VTuple [epoch j]) (VDict []) = ang (deps / 3600) /\
+    deps = C08_nut_main.nut_raw cos C08_nut_main.CCT (C08_nut_main.Tc j) /\
+    Rabs (deps - (92025 + 89 / 10 * C08_nut_main.Tc j)
+                 * cos (C08_node.node_moon (C08_nut_main.Tc j) * (PI / 180)) / 10000) <= 15 / 10.
+Proof. exact C08_nut_bound.nutation_obliquity_clause. Qed.
+
 Redirect "C08_rectangular_j2000_norm.assumptions" Print Assumptions C08_rectangular_j2000_norm.
 Redirect "C08_mean_obliquity_polynomial.assumptions" Print Assumptions C08_mean_obliquity_polynomial.
 Redirect "C08_mean_obliquity_vs_IAU.assumptions" Print Assumptions C08_mean_obliquity_vs_IAU.
@@ -251,3 +308,8 @@ Redirect "C08_true_obliquity_structure.assumptions" Print Assumptions C08_true_o
 Redirect "C08_sun_errors_propagate.assumptions" Print Assumptions C08_sun_errors_propagate.
 Redirect "C08_equinox_frame_refuted.assumptions" Print Assumptions C08_equinox_frame_refuted.
 Redirect "C08_node_nutation_constants.assumptions" Print Assumptions C08_node_nutation_constants.
+Redirect "C08_nutation_longitude_structure.assumptions" Print Assumptions C08_nutation_longitude_structure.
+Redirect "C08_nutation_obliquity_structure.assumptions" Print Assumptions C08_nutation_obliquity_structure.
+Redirect "C08_nutation_remainders.assumptions" Print Assumptions C08_nutation_remainders.
+Redirect "C08_nutation_longitude_main_term.assumptions" Print Assumptions C08_nutation_longitude_main_term.
+Redirect "C08_nutation_obliquity_main_term.assumptions" Print Assumptions C08_nutation_obliquity_main_term.
